@@ -295,12 +295,13 @@ Section Sim.
   Qed.
 
   (* ---- one step of either front-end ------------------------------------------------------------------------ *)
-  Lemma step_sim f s m op :
+  Lemma step_sim_base f s m op :
+    f <> FBf ->
     R s m -> op_ok op -> fits s (op_size op) ->
     exists s' m' r, impl_step hdrdec f s op = (s', r) /\ spec_step f o roots m op = (m', r) /\ R s' m' /\
                     ws_pos s <= ws_pos s' <= ws_pos s + op_size op.
   Proof.
-    intros HR Hop Hfit. pose proof HR as (HI & Hnf & Hok & Hc & Hf & Ho & Hr).
+    intros Hnf0 HR Hop Hfit. pose proof HR as (HI & Hnf & Hok & Hc & Hf & Ho & Hr).
     pose proof (R_parses _ _ HR) as Hpar.
     assert (Hfit0 : fits s 0) by (unfold fits in *; lia).
     assert (Hsame : forall r : out, exists s' m' r0, (s, r) = (s', r0) /\ (m, r) = (m', r0) /\ R s' m' /\
@@ -317,7 +318,8 @@ Section Sim.
       destruct (m_closed m); [reflexivity|].
       rewrite (ws_find_rb o s hb (m_blocks m) c p HI Ho Hok Hp).
       destruct (m_lookup o (m_blocks m) c); reflexivity. }
-    destruct f as [|readable]; destruct op as [c d|l|c|c|c| | | | | | ]; cbn [impl_step spec_step op_size] in *;
+    destruct f as [|readable|]; [| |exfalso; apply Hnf0; reflexivity];
+      destruct op as [c d|l|c|c|c| | | | | | ]; cbn [impl_step spec_step op_size] in *;
       try (apply Hsame).
     - (* blockstore Put *)
       unfold bs_put_many, m_put_many. rewrite Hc, Hf.
@@ -399,6 +401,26 @@ Section Sim.
       + destruct (store_finalize_sim _ _ HR' Hv1) as (s' & Hsf & HR'' & Hp'). { exact Hfit0. }
         rewrite Hsf. cbn [set_flags ws_pos] in Hp'.
         finish s' (m_set_flags m true (m_finalized m)) (if codec_ok o then ONil else OErr EOther) HR''. lia.
+  Qed.
+
+  (* the blockstore over a caller-owned file: the same steps, except that Roots ignores the closed flag *)
+  Lemma step_sim f s m op :
+    R s m -> op_ok op -> fits s (op_size op) ->
+    exists s' m' r, impl_step hdrdec f s op = (s', r) /\ spec_step f o roots m op = (m', r) /\ R s' m' /\
+                    ws_pos s <= ws_pos s' <= ws_pos s + op_size op.
+  Proof.
+    intros HR Hop Hfit.
+    destruct f as [|readable|]; [apply step_sim_base; [discriminate|assumption..]|apply step_sim_base; [discriminate|assumption..]|].
+    assert (HB := step_sim_base FBs s m op ltac:(discriminate) HR Hop Hfit).
+    destruct op; try exact HB.
+    (* Roots *)
+    pose proof HR as (HI & Hnf & Hok & Hc & Hf & Ho & Hr). cbn [impl_step spec_step op_size].
+    replace (bs_roots hdrdec (set_flags s false (ws_finalized s))) with (OKeys roots).
+    { exists s, m, (OKeys roots). split; [reflexivity|]. split; [reflexivity|]. split; [exact HR|lia]. }
+    unfold bs_roots. cbn [set_flags ws_closed ws_opts]. rewrite Ho.
+    destruct (inv_view _ _ _ HI) as (post & Hv).
+    change (ws_view (set_flags s false (ws_finalized s))) with (ws_view s). rewrite Hv. unfold read_header.
+    rewrite ld_read_ld by (try assumption; discriminate). rewrite Hdec. reflexivity.
   Qed.
 
   (* ---- histories ------------------------------------------------------------------------------------------------ *)
